@@ -21,6 +21,7 @@ fn main() {
             "C03" => c03::replay(&v["case"]),
             "C04" => c04::replay(&v["case"]),
             "C05" => c05::replay(&v["case"]),
+            "C06" => c06::replay(&v["case"]),
             "C08" => c08::replay(&v["case"]),
             _ => machinery_error(&format!("no replay for property {id}")),
         };
@@ -47,6 +48,7 @@ fn main() {
         "C03" => c03::run(tier),
         "C04" => c04::run(tier),
         "C05" => c05::run(tier),
+        "C06" => c06::run(tier),
         "C08" => c08::run(tier),
         other => machinery_error(&format!("unknown property {other}")),
     }
